@@ -5,8 +5,24 @@
 package pebbles
 
 import (
+	"github.com/buildbuildio/pebbles/queryer"
+	"github.com/buildbuildio/pebbles/requests"
 	"github.com/vektah/gqlparser/v2/ast"
 )
+
+var _ = requests.Undecodable
+var _ = queryer.QueryCalls
+
+// Ghost view of the HTTP response: the last status written and how many times a
+// status line was written.
+var Status int
+var StatusWrites int
+
+// LoadedDoc: the document gqlparser.LoadQuery returns for a valid query.
+func LoadedDoc(schema *ast.Schema, query string) *ast.QueryDocument { panic("ghost") }
+
+// OpNamed: the result of ast.OperationList.ForName.
+func OpNamed(ops ast.OperationList, name string) *ast.OperationDefinition { panic("ghost") }
 
 // ValidQuery: the query text parses and validates against the schema (decided by
 // gqlparser.LoadQuery, which is outside the verified code).
@@ -15,9 +31,20 @@ func ValidQuery(schema *ast.Schema, query string) bool { panic("ghost") }
 //@ extern github.com/vektah/gqlparser/v2 LoadQuery
 //@ returns doc, errs
 //@ ensures (base(errs) == 0) == ValidQuery(schema, str)
-//@ ensures base(errs) == 0 ==> doc != nil
+//@ ensures base(errs) == 0 ==> doc != nil && doc == LoadedDoc(schema, str)
 //@ ensures base(errs) != 0 ==> len(errs) >= 1
 //@ modifies fresh
+//@ end
+
+//@ extern github.com/vektah/gqlparser/v2/ast (OperationList).ForName
+//@ ensures result == OpNamed(l, name)
+//@ modifies fresh
+//@ end
+
+//@ extern net/http ResponseWriter.WriteHeader
+//@ params statusCode
+//@ assumes-post Status == statusCode && StatusWrites == old(StatusWrites) + 1
+//@ modifies global(Status), global(StatusWrites)
 //@ end
 
 //@ func (*Gateway).queryHandler$1
@@ -25,10 +52,13 @@ func ValidQuery(schema *ast.Schema, query string) bool { panic("ghost") }
 //@ returns res, err
 //@ requires g != nil && rs != nil && 0 <= index && index < len(rs.Requests) && rs.Requests[index] != nil
 //@ requires g.planner != nil && g.executor != nil && g.queryerFactory != nil && g.schema != nil
-//@ modifies fresh, entries(map[string]interface{}), elems(interface{}), entries(map[planner.hashKey]*planner.QueryPlan), entries(map[planner.hashKey]time.Time)
+//@ modifies fresh, entries(map[string]interface{}), elems(interface{}), elems(map[string]interface{}), entries(map[planner.hashKey]*planner.QueryPlan), entries(map[planner.hashKey]time.Time), global(queryer.QueryCalls)
 //@ ensures[index] err == nil && res != nil && res.index == index
 //@ ensures[invalid] !ValidQuery(g.schema, rs.Requests[index].Query) ==> res.Data == nil && len(res.Errors) >= 1
 //@ ensures[fresh] fresh(res)
+//@ ensures[invalid-no-downstream] !ValidQuery(g.schema, rs.Requests[index].Query) ==> queryer.QueryCalls == old(queryer.QueryCalls) @props C10
+//@ ensures[unknown-op] ValidQuery(g.schema, rs.Requests[index].Query) && rs.Requests[index].OperationName != nil && OpNamed(LoadedDoc(g.schema, rs.Requests[index].Query).Operations, *rs.Requests[index].OperationName) == nil ==> queryer.QueryCalls == old(queryer.QueryCalls) && res.Data == nil && len(res.Errors) >= 1 @props C10
+//@ ensures[ambiguous-op] ValidQuery(g.schema, rs.Requests[index].Query) && rs.Requests[index].OperationName == nil && len(LoadedDoc(g.schema, rs.Requests[index].Query).Operations) != 1 ==> queryer.QueryCalls == old(queryer.QueryCalls) && res.Data == nil && len(res.Errors) >= 1 @props C10
 //@ end
 
 //@ func (*Gateway).queryHandler$2
@@ -43,7 +73,11 @@ func ValidQuery(schema *ast.Schema, query string) bool { panic("ghost") }
 //@ func (*Gateway).queryHandler
 //@ props C08 C07
 //@ requires g != nil && r != nil && w != nil && g.planner != nil && g.executor != nil && g.queryerFactory != nil && g.schema != nil
+//@ ensures[one-status] StatusWrites == old(StatusWrites) + 1 @props C07
+//@ ensures[422] (Status == 422) == requests.Undecodable(r) @props C07
+//@ ensures[200] !requests.Undecodable(r) ==> Status == 200 @props C07
 //@ fold 0 invariant[len] len(acc) == len(rs.Requests)
+//@ fold 0 invariant[status] StatusWrites == old(StatusWrites)
 //@ fold 0 invariant[slots] forall(k, 0, n, done(k) ==> acc[k] != nil && acc[k].index == k)
 //@ end
 
@@ -51,12 +85,19 @@ func ValidQuery(schema *ast.Schema, query string) bool { panic("ghost") }
 //@ props C08 C07
 //@ requires w != nil
 //@ requires !isBatch ==> len(rs) >= 1
+//@ ensures[status] Status == 200 && StatusWrites == old(StatusWrites) + 1
+//@ end
+
+//@ func QueryerFactory
+//@ params ctx, url
+//@ trusted callback supplied by the embedding application: assumed not to modify gateway state
+//@ modifies fresh
 //@ end
 
 //@ func (*Gateway).getQueryers
 //@ props C07
 //@ requires g != nil && g.queryerFactory != nil
-//@ modifies-assumed fresh
+//@ modifies-assumed fresh, global(queryer.QueryCalls)
 //@ end
 
 //@ func (*Gateway).parseIntrospectionQuery
@@ -69,4 +110,5 @@ func ValidQuery(schema *ast.Schema, query string) bool { panic("ghost") }
 //@ func emitError
 //@ props C07
 //@ requires w != nil
+//@ ensures[status] Status == code && StatusWrites == old(StatusWrites) + 1
 //@ end
